@@ -35,30 +35,48 @@ def run():
                     '(every placement of 1-2 definitions relative to 1-2 uses, inside and outside quotes and list items), plus simulated documents of up to 9 blocks '
                     'at nesting <= 3 with the full label / destination / title ranges; plus every line sequence of <= 3 (4) lines over three alphabets of definition lines '
                     '(destination or title on the next line, unclosed titles, underlines and block starts after a definition) read by spec/BlockParse.tla; distinct = distinct source texts; non-trivial = has a definition and a reference')
-    docs = docgen.documents(ck, 'refs')
     from . import blockparse
+    st = {'i': 0}
+
+    def judge_docs(docs):
+        chunk = 400
+        jobs = [docs[a:a + chunk] for a in range(0, len(docs), chunk)]
+        ctx = mp.get_context('fork')
+        with ctx.Pool(core.NCPU) as pool:
+            got = [x for part in pool.map(_worker, jobs) for x in part]
+        for d, (html, table) in zip(docs, got):
+            st['i'] += 1
+            want_html = htmlnorm.normalize(d['html'])
+            want_table = sorted([x['base'], x['href'] if not x['href'].startswith('a%20') else 'a b', x['title']] for x in d['defs'] if x['first'])
+            nontrivial = bool(d['defs']) and ('[' in d['html'] or '<a ' in d['html'] or '<img' in d['html'])
+            ck.count(d['src'] if nontrivial else None)
+            ck.traces += 1
+            if st['i'] % 3001 == 1:
+                ck.sample({'source': d['src'], 'expected_html': d['html'], 'expected_definitions': want_table})
+            rep = {'input': d['src'], 'classes': sorted(d['tags'])}
+            if html != want_html:
+                ck.violation('LinkRefs.html: source=%r expected=%r observed=%r' % (d['src'], want_html, html),
+                             dict(rep, expected=want_html, observed=html, clause='LinkRefs.html'))
+            elif table != want_table:
+                ck.violation('LinkRefs.table: source=%r expected=%s observed=%s' % (d['src'], want_table, table),
+                             dict(rep, expected=want_table, observed=table, clause='LinkRefs.table'))
+
+    if ck.tier == 'quick':
+        judge_docs(docgen.documents(ck, 'refs'))
+    else:
+        # the exhaustive configuration exports about two million documents: judged shard by shard to bound memory
+        n_exh = 0
+        for shard in ('para', 'def', 'quote', 'list'):
+            docs = docgen.exhaustive_shard(ck, 'DocGenRefsT.cfg', shard)
+            n_exh += len(docs)
+            judge_docs(docs)
+            del docs
+        if n_exh < 5000:
+            raise core.MachineryError('DocGen.tla exported only %d documents exhaustively' % n_exh)
+        ck.extra['docgen_exhaustive_documents'] = n_exh
+        judge_docs(docgen.dedupe(docgen.concretise(docgen.simulate(ck, 'DocGenRefsSim.cfg', 60000))))
     # every short line sequence over the alphabets that hold definitions, read by spec/BlockParse.tla (HTML and definition table)
-    docs = docs + blockparse.documents(ck, 3 if ck.tier == 'quick' else 4, laws=False, only=['R1', 'R2', 'R3'])
-    chunk = 400
-    jobs = [docs[a:a + chunk] for a in range(0, len(docs), chunk)]
-    ctx = mp.get_context('fork')
-    with ctx.Pool(core.NCPU) as pool:
-        got = [x for part in pool.map(_worker, jobs) for x in part]
-    for i, (d, (html, table)) in enumerate(zip(docs, got)):
-        want_html = htmlnorm.normalize(d['html'])
-        want_table = sorted([x['base'], x['href'] if not x['href'].startswith('a%20') else 'a b', x['title']] for x in d['defs'] if x['first'])
-        nontrivial = bool(d['defs']) and ('[' in d['html'] or '<a ' in d['html'] or '<img' in d['html'])
-        ck.count(d['src'] if nontrivial else None)
-        ck.traces += 1
-        if i % 3001 == 0:
-            ck.sample({'source': d['src'], 'expected_html': d['html'], 'expected_definitions': want_table})
-        rep = {'input': d['src'], 'classes': sorted(d['tags'])}
-        if html != want_html:
-            ck.violation('LinkRefs.html: source=%r expected=%r observed=%r' % (d['src'], want_html, html),
-                         dict(rep, expected=want_html, observed=html, clause='LinkRefs.html'))
-        elif table != want_table:
-            ck.violation('LinkRefs.table: source=%r expected=%s observed=%s' % (d['src'], want_table, table),
-                         dict(rep, expected=want_table, observed=table, clause='LinkRefs.table'))
+    judge_docs(blockparse.documents(ck, 3 if ck.tier == 'quick' else 4, laws=False, only=['R1', 'R2', 'R3']))
     ck.extra['binding_selftest'] = 'expected HTML and definition table are compared for equality; see C03 for the corrupted-expectation test'
     ck.exhaustive = True
     ck.assumptions = ['labels are compared through the specification\'s base table (case and inner-whitespace variants of one base; near-duplicates are different bases); Unicode case folding is not covered by the model',
